@@ -205,6 +205,11 @@ impl Command {
             }
         }
 
+        // e.g. `> foo.txt`: redirections without any command word
+        if tokens_final.is_empty() {
+            return Err(String::from("syntax error: missing command"));
+        }
+
         let redirect_from = if redirects_from_type.is_empty() {
             None
         } else {
